@@ -187,7 +187,7 @@ def dist_fn(dist, c, a, b):
 
 
 def run(ctx):
-    n = 1200 if ctx.tier == "quick" else 25000
+    n = ctx.n(1200, 25000)
     rng = core.Rng(ctx.seed)
     corpus = histprop.load_corpus("C19")
     cases = corpus + [gen_case(rng.fork("case%d" % i)) for i in range(n)]
